@@ -1,17 +1,19 @@
 //! Per-property plans: profile, schedule, oracle and tier sizes.
 
 use crate::gen::{self, Fam, Profile};
-use crate::oracle::{Converge, HistMode, History, Oracle};
+use crate::monitors::{Monitor, Which};
+use crate::oracle::{Converge, HistMode, History, Oracle, RestartOracle};
 use crate::rng::Rng;
 use crate::run::{Plan, Sched, Special};
 use crate::world::{Init, InitialWb};
 
-pub const CLAIMED: [&str; 4] = ["C01", "C02", "C03", "C04"];
+pub const CLAIMED: [&str; 8] = ["C01", "C02", "C03", "C04", "C08", "C26", "C27", "C28"];
 
 pub fn runs_for(prop: &str, tier: &str) -> u64 {
     let (q, t) = match prop {
         "C01" | "C02" => (40_000, 1_500_000),
         "C03" => (30_000, 1_000_000),
+        "C26" | "C27" | "C28" | "C08" => (40_000, 1_500_000),
         "C04" => (40_000, 1_000_000),
         _ => (10_000, 200_000),
     };
@@ -28,6 +30,15 @@ pub fn level_of(prop: &str) -> &'static str {
         _ => "exploration",
     }
 }
+
+const SELECTION_FAMS: [(Fam, u32); 6] = [
+    (Fam::Input, 10),
+    (Fam::Sheet, 30),
+    (Fam::Nav, 40),
+    (Fam::Attr, 10),
+    (Fam::Struct, 5),
+    (Fam::Clip, 5),
+];
 
 const BASE_FAMS: [(Fam, u32); 17] = [
     (Fam::Input, 30),
@@ -77,6 +88,7 @@ fn base_profile(rng: &mut Rng, guards: bool) -> Profile {
         ghosts: rng.chance(0.3),
         edges: rng.chance(0.5),
         p_formula: *rng.pick(&[0.2, 0.4, 0.6]),
+        overflow: false,
         guards,
     }
 }
@@ -85,7 +97,7 @@ pub fn plan(prop: &str, rng: &mut Rng, hash_key: u64) -> Plan {
     let guards = match std::env::var("VERIF_GUARDS").ok().as_deref() {
         Some("1") => true,
         Some("0") => false,
-        _ => rng.chance(0.7),
+        _ => rng.chance(0.85),
     };
     let mut init = base_init(rng, hash_key);
     let mut profile = base_profile(rng, guards);
@@ -98,6 +110,35 @@ pub fn plan(prop: &str, rng: &mut Rng, hash_key: u64) -> Plan {
         }
         "C04" => {
             sched.p_bad = *rng.pick(&[0.15, 0.3, 0.5]);
+        }
+        "C26" => {
+            sched.p_save = 0.06;
+            sched.p_restart_clean = 0.08;
+            sched.p_restart_dirty = 0.04;
+            sched.p_tick = 0.02;
+        }
+        "C27" => {
+            sched.p_bad = *rng.pick(&[0.0, 0.1, 0.3]);
+            init.followers = rng.below(2) as usize;
+            sched.p_flush = 0.5;
+            sched.p_deliver = 0.5;
+            sched.p_restart_clean = 0.03;
+            sched.p_pause = *rng.pick(&[0.0, 0.0, 0.05]);
+            profile.p_undo = 0.18;
+            profile.p_redo = 0.1;
+        }
+        "C28" => {
+            profile.fams = gen::draw_fams(rng, &SELECTION_FAMS);
+            profile.p_undo = 0.2;
+            profile.p_redo = 0.12;
+            sched.p_bad = *rng.pick(&[0.0, 0.1]);
+        }
+        "C08" => {
+            profile.dynamic = true;
+            profile.p_formula = 0.7;
+            profile.overflow = true;
+            sched.p_restart_clean = 0.03;
+            profile.p_undo = 0.1;
         }
         "C03" => {
             init.followers = rng.range(1, 2) as usize;
@@ -117,13 +158,17 @@ pub fn oracle_for(prop: &str) -> Box<dyn Oracle> {
         "C02" => Box::new(History::new(HistMode::Redo)),
         "C04" => Box::new(History::new(HistMode::Fail)),
         "C03" => Box::new(Converge::new()),
+        "C26" => Box::new(RestartOracle::new()),
+        "C27" => Box::new(Monitor::new(Which::Wellformed)),
+        "C28" => Box::new(Monitor::new(Which::Selection)),
+        "C08" => Box::new(Monitor::new(Which::NonFinite)),
         _ => Box::new(History::new(HistMode::Undo)),
     }
 }
 
 pub fn special_for(prop: &str) -> Option<Box<Special>> {
     match prop {
-        "C04" => Some(Box::new(|rng, w, p| crate::bad::bad_op(rng, w, p))),
+        "C04" | "C27" | "C28" => Some(Box::new(|rng, w, p| crate::bad::bad_op(rng, w, p))),
         _ => None,
     }
 }
@@ -132,6 +177,10 @@ pub fn rule_for(prop: &str) -> String {
     match prop {
         "C01" => "seeded histories of user-model operations (swarm-selected families, 3-40 events, undo 15%/redo 8%) on one editing session; a case is non-trivial iff at least one undo of a recorded operation was compared against the history-cursor model; distinct = distinct (event-kind sequence hash, final snapshot hash)".into(),
         "C02" => "as C01 with undo 25%/redo 20%; non-trivial iff at least one redo of an undone operation was compared against the cursor model".into(),
+        "C26" => "C01 histories with Save (6%), clean Restart (8%: to_bytes -> from_bytes -> evaluate, new incarnation with another hash seed, history lost) and dirty Restart (4%: crash, load the last saved bytes); the run continues on the restarted node; non-trivial iff a decode/encode workbook equality, a clean-restart or a dirty-restart snapshot comparison was made on an evaluated state".into(),
+        "C27" => "C01+C04 mix (invalid calls 0-30%), 0-1 follower fed by the queue, clean restarts 3%, evaluation paused in some runs; the well-formedness scan runs on every live node after every event; non-trivial iff the run contains at least one event that can change structure (operation, undo/redo, delivery, restart)".into(),
+        "C28" => "sheet new/delete/duplicate/move/hide/unhide at every index relative to the selected one, selection and navigation events, hide rows/columns, undo/redo, some invalid calls; the selection scan (raw workbook.views / worksheet.views) runs after every event; non-trivial iff the run contains at least one sheet/selection/navigation/undo/redo event".into(),
+        "C08" => "formula-heavy histories biased to overflow (1E308, -1E308, 1E-320, ^, *, /, SUM, array literals and range arithmetic in scalar, CSE and dynamic form, typed 1e999), undo/redo and restarts; every NumberCell / formula value / spill value of every live node is scanned after every event; non-trivial iff the run contains an operation".into(),
         "C03" => "seeded histories (C01 mix, undo 20%/redo 12%) on a primary session with 1-2 follower sessions loaded from the same initial bytes; the outgoing queue is cut into batches by a per-run flush probability (after every event / 0.5 / 0.1 / only at the end) and delivered with a per-run lag; followers have other hash seeds than the primary; non-trivial iff at least one comparison primary vs follower was made at a quiescent point after at least one batch was applied".into(),
         "C04" => "seeded histories with injected invalid calls (operation kind x invalid-argument class table, Appendix A); non-trivial iff at least one call that returned Err was compared (state, undo/redo lengths) before/after".into(),
         _ => "seeded histories".into(),
